@@ -31,6 +31,8 @@ class D(Driver):
         ("picosvg.svg_types", "SVGPath.remove_overlaps"),
     )
     deciding_monitors = ("pathop", "pathop.shape_level")
+    feature_floors = {"pathop.union.ok": 60, "pathop.intersection.ok": 60, "pathop.difference.ok": 60, "pathop.remove_overlaps.ok": 100,
+                      "pathop.SVGPath.remove_overlaps.ok": 60, "pathop._do_pathop.ok": 300}
     nt_floor = {"quick": 300, "thorough": 5000}
     time_budget = {"quick": 120, "thorough": 900}
 
